@@ -203,7 +203,7 @@ ZOO_SCAFFOLD = ("const int N = 3; typedef int[0,N-1] id_t; typedef struct { int 
                 " int f(int a) { return a; } int g(int a) { return a; } typedef int[0,1] lt;")
 
 
-def zoo_part(c, add, gen, scaffold_xml):
+def zoo_part(c, add, gen, scaffold_xml, quick=True, lx=None):
     """RuleCover.tla: which productions of the extracted grammar the zoo (lib/zoo.py) reduces by; every zoo text is then run through the
     document builder + type checker, the pretty printer and (queries) the property builders under the sanitizers"""
     import zoo, xtalex
@@ -266,6 +266,36 @@ def zoo_part(c, add, gen, scaffold_xml):
             add("zoo", d["id"], dict(j, builder="pretty", dump=False), dict(rep, backend="pretty"))
             if j["entry"] in ("xta", "part") and "scaffold" not in j:
                 recjobs.append(dict(j, id=d["id"], positions=True, analysis=False, walk=False, timeout=60, builtins=False))
+    # the error-recovery neighbourhood of every construct: one token-level fault at every (quick: every 9th) position of every zoo text
+    stride = 9 if quick else 1
+    nfault = 0
+    for d, doc in zip(corpus, docs):
+        if d["id"].startswith("error"):
+            continue
+        toks = doc["toks"]
+        prop = d["job"]["entry"] == "property"
+        for pos in range(len(toks)):
+            if (pos + len(d["id"])) % stride:
+                continue
+            variants = {"delete": toks[:pos] + toks[pos + 1:], "duplicate": toks[:pos + 1] + toks[pos:], "garbage": toks[:pos] + [{"t": "T_ERROR", "n": 0, "s": ""}] + toks[pos + 1:],
+                        "close": toks[:pos] + [{"t": "')'", "n": 0, "s": ""}] + toks[pos:], "semicolon": toks[:pos] + [{"t": "';'", "n": 0, "s": ""}] + toks[pos:]}
+            for fname, ft in variants.items():
+                try:
+                    text = lx.render(ft, prop=prop)
+                except KeyError:
+                    continue
+                nfault += 1
+                rep = {"zoo": d["id"], "fault": fname, "at_token": pos, "text": text[:600]}
+                if prop:
+                    add("zoofault", d["id"] + ":" + fname, {"entry": "xml_buffer", "text": rich_xml, "queries": [text], "query_builder": "tiga", "dump": False}, dict(rep, backend="tiga"))
+                    add("zoofault", d["id"] + ":" + fname, {"builder": "pretty", "entry": "property", "text": text, "dump": False}, dict(rep, backend="pretty"))
+                else:
+                    j = dict(d["job"], text=text)
+                    if j["entry"] == "part" and j["part"] != "S_DECLARATION":
+                        j["scaffold"] = ZOO_SCAFFOLD
+                    add("zoofault", d["id"] + ":" + fname, dict(j), dict(rep, backend="document"))
+                    add("zoofault", d["id"] + ":" + fname, dict(j, builder="pretty", dump=False), dict(rep, backend="pretty"))
+    c.cov["zoo_fault_inputs"] = nfault
     vf.build_harness("record", "plain")
     rres = vf.run_jobs(recjobs, c.run_dir, variant="plain", harness="record", name="zoorec")
     nagree = 0
@@ -399,7 +429,7 @@ def run(tier):
     for L in (5, 6, 7):
         add("entity", "levels", {"entry": "xml_buffer", "text": entity_doc(L), "timeout": 120}, {"levels": L, "bytes": len(entity_doc(L)), "backend": "document"})
     # ---- 5c. production zoo: inputs that together reduce by (nearly) every production of the grammar, through every back end
-    zoo_part(c, add, gen, scaffold_xml)
+    zoo_part(c, add, gen, scaffold_xml, quick, lx)
     # ---- run
     # scaling probes run against the plain build: sanitizer frames are an order of magnitude larger than the library's own
     sjobs = [j for j in jobs if meta[j["id"]][0] in ("scale", "entity")]
